@@ -255,7 +255,54 @@ func runC13(c *core.Ctx) {
 			}
 			return false
 		}
-		isPayload := isWriteOf(func(v ssa.Value) bool { return (marshal != nil && extractOf(v, marshal, 0)) || framed(v) })
+		// third idiom: prefix and payload are assembled in one frame buffer - PutUvarint at its start, the
+		// marshalled bytes copied behind it - and the frame goes out in a single Write. (How long the frame is cut
+		// is arithmetic and not judged.)
+		baseOf := func(v ssa.Value) ssa.Value {
+			for i := 0; i < 6; i++ {
+				v = core.StripConv(v)
+				if sl, ok := v.(*ssa.Slice); ok {
+					v = sl.X
+					continue
+				}
+				break
+			}
+			if ld, ok := v.(*ssa.UnOp); ok && ld.Op == token.MUL {
+				if _, n, ok := core.FieldOf(ld.X); ok {
+					return ssaFieldKey(n)
+				}
+			}
+			return v
+		}
+		framedInBuffer := func(v ssa.Value, at ssa.Instruction) bool {
+			b := baseOf(v)
+			if b == nil {
+				return false
+			}
+			put, cp := false, false
+			core.Instrs(wm, func(in ssa.Instruction) {
+				cl, ok := in.(*ssa.Call)
+				if !ok || !core.InstrDominates(in, at) {
+					return
+				}
+				if strings.HasSuffix(core.CalleeName(cl), "binary.PutUvarint") && len(cl.Call.Args) == 2 && baseOf(cl.Call.Args[0]) == b {
+					put = true
+				}
+				if bi, isB := cl.Call.Value.(*ssa.Builtin); isB && bi.Name() == "copy" && len(cl.Call.Args) == 2 && baseOf(cl.Call.Args[0]) == b && marshal != nil && extractOf(cl.Call.Args[1], marshal, 0) {
+					cp = true
+				}
+			})
+			return put && cp
+		}
+		isFrameWrite := func(in ssa.Instruction) bool {
+			cl, ok := in.(*ssa.Call)
+			if !ok || !cl.Call.IsInvoke() || cl.Call.Method.Name() != "Write" || len(cl.Call.Args) != 1 {
+				return false
+			}
+			return framedInBuffer(cl.Call.Args[0], in)
+		}
+		isPayloadW := isWriteOf(func(v ssa.Value) bool { return (marshal != nil && extractOf(v, marshal, 0)) || framed(v) })
+		isPayload := func(in ssa.Instruction) bool { return isPayloadW(in) || isFrameWrite(in) }
 		isPrefix := isWriteOf(func(v ssa.Value) bool {
 			// a slice of the varint buffer cut at what PutUvarint returned
 			for _, o := range core.Origins(v) {
@@ -269,6 +316,8 @@ func runC13(c *core.Ctx) {
 			}
 			return framed(v)
 		})
+		isPrefixW := isPrefix
+		isPrefix = func(in ssa.Instruction) bool { return isPrefixW(in) || isFrameWrite(in) }
 		n := 0
 		for _, rs := range successReturns(wm) {
 			n++
@@ -1334,4 +1383,22 @@ func calledLiteral(cl *ssa.Call) *ssa.Function {
 		}
 	}
 	return nil
+}
+
+
+// ssaFieldKey gives loads of the same-named field one identity (two loads of w.frame are two values in SSA form).
+type fieldKeyValue struct {
+	ssa.Value
+	name string
+}
+
+var fieldKeys = map[string]*fieldKeyValue{}
+
+func ssaFieldKey(name string) ssa.Value {
+	if k, ok := fieldKeys[name]; ok {
+		return k
+	}
+	k := &fieldKeyValue{name: name}
+	fieldKeys[name] = k
+	return k
 }
